@@ -365,6 +365,8 @@ func runPrio1Bubble(sc scenario) result {
 			res.addI(*chans[id].done - int64(len(chans[id].ch)))
 		}
 		putMu.Unlock()
+		snapP, snapA, snapS, snapT := dsc.VerifSnapshot()
+		appendSnapshot(&res, snapP, snapA, snapS, snapT)
 	}
 	res.addI(boolInt(done))
 	if done {
@@ -372,6 +374,7 @@ func runPrio1Bubble(sc scenario) result {
 	} else {
 		res.addI(-1)
 	}
+	res.addI(0) // the model reports here whether some select had several ready alternatives
 	faultHit := 0
 	probe.mu.Lock()
 	if probe.faultAt >= 0 && probe.count > probe.faultAt {
@@ -425,4 +428,29 @@ func runPrio1Bubble(sc scenario) result {
 	close(quit)
 	synctest.Wait()
 	return res
+}
+
+func appendSnapshot(res *result, priorities []uint, actual, strategic, _ map[uint]uint) {
+	listed := map[uint]bool{}
+	rows := [][3]uint{}
+	for _, p := range priorities {
+		listed[p] = true
+		rows = append(rows, [3]uint{p, actual[p], strategic[p]})
+	}
+	extra := []uint{}
+	for p, a := range actual {
+		if !listed[p] && a != 0 {
+			extra = append(extra, p)
+		}
+	}
+	sort.Slice(extra, func(i, j int) bool { return extra[i] > extra[j] })
+	for _, p := range extra {
+		rows = append(rows, [3]uint{p, actual[p], strategic[p]})
+	}
+	res.addI(int64(len(rows)))
+	for _, r := range rows {
+		res.addU(uint64(r[0]))
+		res.addU(uint64(r[1]))
+		res.addU(uint64(r[2]))
+	}
 }
